@@ -196,8 +196,36 @@ func (x *Exec) evalCtx(p *Path, vars map[string]Val) *EvalCtx {
 }
 
 // Verify generates the obligations of one function under its contract.
+// renameLabel rewrites the leading identifier of a lock label (`cl.mutex`) if the source now spells it differently.
+func renameLabel(lbl string, ren map[string]string) string {
+	head, rest := lbl, ""
+	if i := strings.Index(lbl, "."); i >= 0 {
+		head, rest = lbl[:i], lbl[i:]
+	}
+	if now := ren[head]; now != "" {
+		return now + rest
+	}
+	return lbl
+}
+
 func (x *Exec) Verify() {
 	fn, fc := x.fn, x.fc
+	if ren := x.e.renamesOf(fn); fc != nil && len(ren) > 0 && (fc.Atomic != "" || len(fc.Holds) > 0) {
+		// lock labels are compared textually with the labels of the SSA values: follow renamed receivers / parameters
+		c2 := *fc
+		c2.Atomic = renameLabel(fc.Atomic, ren)
+		c2.Holds = nil
+		c2.HoldsRead = map[string]bool{}
+		for _, h := range fc.Holds {
+			h2 := renameLabel(h, ren)
+			c2.Holds = append(c2.Holds, h2)
+			if fc.HoldsRead[h] {
+				c2.HoldsRead[h2] = true
+			}
+		}
+		fc = &c2
+		x.fc = fc
+	}
 	x.pkg = fn.Pkg.Pkg.Path()
 	p := x.newPath()
 	fr := &FrameState{fn: fn, env: map[ssa.Value]Val{}, names: map[string]Val{}, loopMeas: map[*ssa.BasicBlock][]string{}, inLoop: map[*ssa.BasicBlock]bool{}}
